@@ -27,7 +27,7 @@ THEOREMS = [
     # which defs get a signature, overload recognition
     "Signature.overload_by_resolution", "Signature.property_iff", "Signature.module_level_function",
     # overload bookkeeping and what the page shows
-    "Signature.overloads_own", "Signature.overloads_displayed", "Signature.records_sound", "Signature.never_broken",
+    "Signature.overloads_own", "Signature.overloads_displayed", "Signature.records_sound", "Signature.never_broken", "Signature.broken_signature_unreadable",
     "Signature.shownName_spec",
 ]
 PARTIAL: Dict[str, str] = {}
@@ -1703,7 +1703,7 @@ def run(ctx: Ctx) -> None:
             if c is not None:
                 cases.append(c)
     # 5. random longer signatures
-    nrand = 1000 if ctx.quick else 30000
+    nrand = 800 if ctx.quick else 30000
     for i in range(nrand):
         exprs = i % 3 != 0
         text = random_signature(rng, 5, 10, exprs)
@@ -1719,7 +1719,7 @@ def run(ctx: Ctx) -> None:
     run_cases(ctx, cases)
     run_read_stream(ctx, read_texts)
     run_overloads(ctx, 440 if ctx.quick else 4400)
-    run_unstring(ctx, 2, 500 if ctx.quick else 40000)
+    run_unstring(ctx, 2, 300 if ctx.quick else 40000)
     run_decorators(ctx, 200 if ctx.quick else 6000)
     run_module_constants(ctx, 200 if ctx.quick else 6000)
 
